@@ -63,6 +63,36 @@ def scaleInteg (o : Obj) (i1 n : Nat) (lo hi : Rat) : Rat :=
     let d := dAbs o j
     acc + rabs o.pref * (absStem a b c d xj xr + absStem a b c d xj xl)) (0 : Rat)
 
+/-- scale of `Integrate` as coded after the pending repair C08-2 (each piece integrated from its left limit in Taylor/Horner
+    form, `w = x_right − x_left`, `t = x_left − x_j`): `|prefactor|·w·(P0 + w·(P1/2 + w·(P2/3 + w·A/4)))` with every
+    coefficient replaced by the sum of the absolute values of its terms — proportional to the width of the range -/
+def scaleIntegT (o : Obj) (i1 n : Nat) (lo hi : Rat) : Rat :=
+  (List.range (n + 1)).foldl (fun acc i =>
+    let j := i1 + i
+    let xj := o.x j
+    let xl := if i = 0 then lo else xj
+    let xr := if i = n then hi else o.x (j + 1)
+    let a := aAbs o j
+    let b := bAbs o j
+    let c := cAbs o j
+    let d := dAbs o j
+    let t := rabs (xl - xj)
+    let w := rabs (xr - xl)
+    let p0 := ((a * t + b) * t + c) * t + d
+    let p1 := (3 * a * t + 2 * b) * t + c
+    let p2 := 3 * a * t + b
+    acc + rabs o.pref * (w * (p0 + w * (p1 / 2 + w * (p2 / 3 + w * a / 4))))) (0 : Rat)
+
+/-- the second scale of an `Integrate` call (0 for the other calls) -/
+def scaleOfT (o : Obj) : Op → Rat
+  | .integ a b =>
+    let lo := if a > b then b else a
+    let hi := if a > b then a else b
+    match locateCanon o.N o.x lo, locateCanon o.N o.x hi with
+    | .ok i1, .ok i2 => scaleIntegT o i1 (i2 - i1) lo hi
+    | _, _ => 0
+  | _ => 0
+
 def listAbsMax (l : List Rat) : Rat := l.foldl (fun m v => rmax m (rabs v)) 0
 
 /-- the scale of the answer to one call (0 for calls that return an index or nothing) -/
